@@ -248,9 +248,37 @@ def run(chk):
         if [p[0] for p in pk] != got or res_decode(end) != ('err', 'EOFError'):
             chk.violation('model', 'model:%s:%d' % (case['stream'], case['prefix']), {'case': case, 'expected': [p[0] for p in pk], 'observed': got},
                           '%s cut after %d bytes: delivered ids %s, the model reader delivers %s and ends with %s' % (case['stream'], case['prefix'], got, [p[0] for p in pk], res_decode(end)))
+    refused_fallback(chk)
     chk.sample('prefix', {'stream': 'play', 'bytes': len(b''.join(S['play']['conns'][0][0]))}, k=1)
     chk.assumptions += ['PARTIAL: real blocking (a select that never returns, half-open TCP) is outside the model; the simulated end of stream is what recv returning b"" looks like',
                         'spinning is detected by a budget of reads after end of stream, blocking by a read with nothing available']
+
+
+def refused_fallback(chk):
+    """The server ends the stream before answering the status query and then refuses the fallback login connection: the
+    client does not hang, and the refusal is reported to the application (exception handler / Connection.exception) - an
+    unanswered status query is non-fatal only as long as the fallback it triggers succeeds."""
+    from minecraft.networking.connection import Connection
+    for allowed, cut in (((47, 340), 0), ((340, 757), 0), ((47, 757), 1), ((340, 754, 757), 3)):
+        reply = proto.frame(0, proto.string('{"version":{"name":"x","protocol":%d},"description":"x"}' % allowed[0]))
+        net = sim.Net([sim.Server([reply[:cut]] if cut else [], end='eof'), sim.Server([], refuse=True)]).install()
+        excs, exits = [], []
+        try:
+            conn = Connection('localhost', 25565, username='user', allowed_versions=set(allowed), handle_exception=lambda e, i: excs.append(e), handle_exit=lambda: exits.append(1))
+            conn.connect()
+            res = list(net.run_threads(conn))
+        finally:
+            net.uninstall()
+        chk.count('refused-fallback', [list(allowed), cut], True)
+        outs = [r[1] for r in res]
+        what = None
+        if any(o in ('spin', 'would-block') for o in outs):
+            what = 'the networking thread did not end (%s)' % outs
+        elif not excs or not isinstance(excs[-1], ConnectionRefusedError) or conn.exception is not excs[-1]:
+            what = 'reported to the handler: %s; Connection.exception: %s (the refusal of the fallback connection is the error of this conversation)' % ([exn_name(e) for e in excs], exn_name(conn.exception) if conn.exception else None)
+        if what:
+            chk.violation('refused-fallback', 'refused-fallback:%s:%d' % ('-'.join(map(str, allowed)), cut), {'case': {'allowed': list(allowed), 'status_reply_cut_after': cut}, 'observed': what},
+                          'status query unanswered (stream ends after %d bytes), fallback connection refused: %s' % (cut, what))
 
 
 def whole_streams(chk, suite):
